@@ -13,6 +13,7 @@ import json
 import common
 import driver_gen as G
 import driver_opt as D
+import driver_translate
 from common import ModelErr
 
 PROP = "C15"
@@ -69,6 +70,15 @@ ASSUMPTIONS = [
 MAX_OPS_QUICK, MAX_OPS_THOROUGH = 12, 200
 
 
+def generate(ctx):
+    """translator: statistics-field / working-variable tables of the optimiser classes, read from the working tree
+    with `ast`, against the model's tables (one `decide` obligation)"""
+    driver_translate.generate()
+    return [("Scico.Generated.DriverFields",
+             "statistics columns (name, format, attribute expression, per class and sub-problem-solver branch), assembly of the "
+             "statistics function, and the arguments of _all_finite in every _working_vars_finite equal the model's tables")]
+
+
 # --------------------------------------------------------------------------------------------------
 # sessions
 
@@ -94,11 +104,12 @@ def eval_session(model, case):
     twin = D.twin_tables(spec, n)
     s0 = D.build(spec)
     min0 = D.flat(s0.minimizer())
-    real = D.run_history(spec, ops, st, ct, clock0)
+    ctl = case.get("ctl")
+    real = D.run_history(spec, ops, st, ct, clock0, ctl=ctl)
     opts = model_options(model, spec.get("kwargs", {}))
     mres = model.call(
         "session", iter0=opts["iter0"], nanstop=opts["nanstop"], clock=clock0, ops=ops, stepTicks=st[: n + 1], cbTicks=ct[: n + 1],
-        vars=twin["fin"] + [[]],
+        vars=twin["fin"] + [[]], ctl=(ctl or []),
     )
     bundle = {"twin": twin, "real": real, "model": mres, "min0": min0}
     custom = spec.get("kwargs", {}).get("itstat_options") == "custom"
@@ -116,7 +127,7 @@ def eval_session(model, case):
                 if ob[key] != mo[key]:
                     return mm(key, ob[key], mo[key]), bundle
         elif o["op"] == "solve":
-            for key in ("outcome", "itnum", "clock", "steps", "elapsed", "running"):
+            for key in ("outcome", "itnum", "clock", "steps", "elapsed", "running") + (("maxiter",) if ob["outcome"] == "ok" else ()):
                 if ob[key] != mo[key]:
                     return mm(key, ob[key], mo[key]), bundle
             if len(ob["rows"]) != len(mo["rows"]):
@@ -165,6 +176,9 @@ def classify_known(case, mis, bundle):
     mo = bundle["model"][mis["op_index"]]
     if mis["what"] == "itnum" and int(o["maxiter"]) <= 0 and mis["impl"] == mo.get("itnum_pinned") and mis["impl"] == mis["model"] + 1:
         return "maxiter0-itnum"
+    if mis["what"] == "itnum" and case.get("ctl") and mis["impl"] == mo.get("itnum_late") and mis["impl"] == mis["model"] - 1:
+        # the tree as it is decides the final increment on the maxiter the callbacks left
+        return "callback-maxiter-counter"
     if mis["what"] == "outcome" and mis["model"] == "nan" and mis["impl"] == "ok":
         # the model stopped at a step where only block-array variables hold non-finite values
         k = mo["steps"]
@@ -182,12 +196,12 @@ def session_oracle(case):
     n = D.max_steps(ops)
     twin = D.twin_tables(spec, n)
     min0 = D.flat(D.build(spec).minimizer())
-    real = D.run_history(spec, ops, st, ct, clock0)
-    r = G.solve_oracle(spec, ops, st, ct, real["obs"], twin, min0)
+    real = D.run_history(spec, ops, st, ct, clock0, ctl=case.get("ctl"))
+    r = G.solve_oracle(spec, ops, st, ct, real["obs"], twin, min0, ctl=case.get("ctl"))
     if r is None and real["transpose_ok"] is not True:
         r = {"fails": "history(transpose=True) is not the transpose of history()"}
     if r is not None:
-        r = {"spec": spec, "ops": ops, "step_ticks": st, "cb_ticks": ct, **r}
+        r = {"spec": spec, "ops": ops, "step_ticks": st, "cb_ticks": ct, **({"ctl": case["ctl"]} if case.get("ctl") else {}), **r}
     return r
 
 
@@ -218,7 +232,7 @@ def shrink_session(model, case, mis):
 
 def session_key(case):
     sp = case["spec"]
-    return json.dumps([sp["cls"], sp["block"], sp.get("solver"), sp.get("nan"), sp.get("kwargs"), case["ops"]], sort_keys=True)
+    return json.dumps([sp["cls"], sp["block"], sp.get("solver"), sp.get("nan"), sp.get("kwargs"), case["ops"], case.get("ctl")], sort_keys=True)
 
 
 def check_session(ctx, model, case, origin="gen"):
@@ -237,6 +251,10 @@ def check_session(ctx, model, case, origin="gen"):
     ctx.count("session:records", iters)
     if spec.get("kwargs", {}).get("itstat_options"):
         ctx.count(f"session:itstat_options={spec['kwargs']['itstat_options']}")
+    if case.get("ctl"):
+        ctx.count("session:callbacks assign itnum/maxiter")
+        ncb = sum(len(c.get("cbs", [])) for c in bundle["real"]["obs"] if c.get("op") == "solve")
+        ctx.count("session:callback invocations that assign", sum(1 for j in range(min(ncb, len(case["ctl"]))) if case["ctl"][j] is not None))
     if mis is None:
         return True
     kid = classify_known(case, mis, bundle)
@@ -250,7 +268,8 @@ def check_session(ctx, model, case, origin="gen"):
         # the property oracle at the shrunk history, at the original one, and at the shrunk history followed by a
         # pause and one more iteration (exposes state left behind by solve, e.g. a timer that keeps running)
         probe = dict(c, ops=list(c["ops"]) + [{"op": "tick", "d": 3}, {"op": "solve", "maxiter": 1, "cb": False}],
-                     step_ticks=list(c["step_ticks"]) + [1, 1], cb_ticks=list(c["cb_ticks"]) + [1, 1])
+                     step_ticks=list(c["step_ticks"]) + [1, 1], cb_ticks=list(c["cb_ticks"]) + [1, 1],
+                     **({"ctl": list(c["ctl"]) + [None, None]} if c.get("ctl") else {}))
         for cand in (c, case, probe):
             r = session_oracle(cand)
             if r is not None:
@@ -268,7 +287,11 @@ def gen_session(ctx, cls=None, max_ops=None):
     ops = G.gen_ops(rng, max_ops or MAX_OPS_QUICK)
     n = D.max_steps(ops)
     st, ct = G.gen_ticks(rng, n)
-    return {"kind": "session", "spec": spec, "ops": ops, "step_ticks": st, "cb_ticks": ct, "clock0": int(rng.integers(0, 50))}
+    case = {"kind": "session", "spec": spec, "ops": ops, "step_ticks": st, "cb_ticks": ct, "clock0": int(rng.integers(0, 50))}
+    ctl = G.gen_ctl(rng, n)
+    if ctl is not None:
+        case["ctl"] = ctl
+    return case
 
 
 # --------------------------------------------------------------------------------------------------
@@ -276,23 +299,43 @@ def gen_session(ctx, cls=None, max_ops=None):
 
 
 def model_timer(model, cfg, calls):
-    mc = [{"t": c["t"], "op": c["op"], "arg": c.get("arg"), **({"total": c["total"]} if c["op"] == "elapsed" else {})} for c in calls]
+    mc = []
+    for c in calls:
+        m = {"t": c["t"], "op": c["op"], "arg": c.get("arg")}
+        if c["op"] == "elapsed":
+            m["total"] = c["total"]
+        if c["op"] in ("ctx_enter", "ctx_exit"):
+            m["action"] = c["action"]
+        mc.append(m)
     r = model.call("timer", init=cfg["init"], dflt=cfg["dflt"], all=cfg["all"], calls=mc)
     if r["model"] != r["spec"]:
-        raise common.Infra(f"Lean model and Lean stop-watch specification differ (contradicts C15_timer_refines_stopwatch): {cfg} {calls} {r}")
+        raise common.Infra(f"Lean model and Lean stop-watch specification differ (contradicts C15_timer_refines_stopwatch / C15_timer_str): {cfg} {calls} {r}")
     return r
 
 
+def model_str_rows(extra):
+    """rows of the model's `Timer.strRows` with the numbers as `Timer.__str__` prints them"""
+    return [[l, D.fmt_ticks(a), None if c is None else D.fmt_ticks(c)] for l, a, c in extra["rows"]]
+
+
 def eval_timer(model, case):
+    """-> (mismatch | None, implementation results, indices of `str` calls that hit the known TypeError)"""
     cfg, calls = case["cfg"], case["calls"]
     impl, keys = D.run_timer(cfg, calls)
     r = model_timer(model, cfg, calls)
+    known = []
     for i, (a, b) in enumerate(zip(impl, r["model"])):
-        if a != b:
-            return {"call_index": i, "call": calls[i], "what": "result", "impl": a, "model": b}, impl
+        if calls[i]["op"] == "str":
+            want = model_str_rows(r["extra"][i])
+            if a == "TypeError" and not r["extra"][i]["pinned_ok"]:
+                known.append(i)  # some timer is running: the tree as it is cannot print the table
+            elif a != want:
+                return {"call_index": i, "call": calls[i], "what": "table", "impl": a, "model": want}, impl, known
+        elif a != b:
+            return {"call_index": i, "call": calls[i], "what": "result", "impl": a, "model": b}, impl, known
         if keys[i] != r["keys"][i]:
-            return {"call_index": i, "call": calls[i], "what": "labels", "impl": keys[i], "model": r["keys"][i]}, impl
-    return None, impl
+            return {"call_index": i, "call": calls[i], "what": "labels", "impl": keys[i], "model": r["keys"][i]}, impl, known
+    return None, impl, known
 
 
 def timer_oracle(case):
@@ -302,20 +345,36 @@ def timer_oracle(case):
     for i, (a, b) in enumerate(zip(impl, want)):
         if a != b:
             return {"cfg": cfg, "calls": calls[: i + 1], "call_index": i, "timer_returned": a, "ideal_stopwatch": b,
-                    "fails": "Timer result differs from the ideal stop-watch (-1 = KeyError)"}
+                    "fails": ("str(timer) raised TypeError; the documented table of the ideal stop-watch is given" if a == "TypeError" else
+                              "Timer result differs from the ideal stop-watch (-1 = KeyError)")}
     return None
 
 
 def check_timer(ctx, model, case, origin="gen"):
-    mis, impl = eval_timer(model, case)
+    mis, impl, known = eval_timer(model, case)
     calls = case["calls"]
-    nt = any((c["op"] == "elapsed" and r > 0) or r == -1 for c, r in zip(calls, impl))
+    nt = any((c["op"] == "elapsed" and r > 0) or r == -1 for c, r in zip(calls, impl) if not isinstance(r, (list, str, dict)))
     ctx.case({"kind": "timer", "calls": len(calls), "origin": origin}, json.dumps(case, sort_keys=True) if nt else None, sample_every=200)
     ctx.count(f"timer:calls<={(len(calls) + 9) // 10 * 10}")
     for c, r in zip(calls, impl):
+        if c["op"] == "str":
+            ctx.count("timer:str:" + ("TypeError" if r == "TypeError" else "rows<=%d" % ((len(r) + 1) // 2 * 2) if isinstance(r, list) else "unparsed"))
+            continue
         ctx.count(f"timer:{c['op']}:{'KeyError' if r == -1 else 'ok'}")
         a = c.get("arg")
         ctx.count("timer:arg=" + ("None" if a is None else "list" if isinstance(a, list) else "all-label" if a == case["cfg"]["all"] else "label"))
+    if case["cfg"].get("init_tuple"):
+        ctx.count("timer:constructor labels as tuple")
+    if known:
+        if ctx.is_known("timer-str-running"):
+            ctx.suppressed += len(known)
+            ctx.known_finding("timer-str-running", True)
+        else:
+            i = known[0]
+            small = dict(case, calls=calls[: i + 1])
+            ctx.disagree("driver.timer", small, {"what": "table", "call_index": i, "value": "TypeError"},
+                         {"what": "table", "value": "rows"}, oracle=timer_oracle)
+            return False
     if mis is None:
         return True
 
@@ -328,7 +387,7 @@ def check_timer(ctx, model, case, origin="gen"):
             return False
 
     small = dict(case, calls=common.shrink_list(calls, still, max_steps=150))
-    mis2, _ = eval_timer(model, small)
+    mis2, _, _ = eval_timer(model, small)
     mis2 = mis2 or mis
     ctx.disagree("driver.timer", small, {"what": mis2["what"], "call_index": mis2["call_index"], "value": mis2["impl"]},
                  {"what": mis2["what"], "value": mis2["model"]}, oracle=timer_oracle)
@@ -373,6 +432,22 @@ def check_kwargs(ctx, model):
                 ctx.count("fields:checked")
                 if names != want:
                     ctx.disagree("driver.fields", case, names, want)
+                    continue
+                # the statistics function the constructor assembled evaluates exactly the model's attribute
+                # expressions, in column order: same bytecode as the model's source text compiled here
+                fs = model.call("fieldspecs", cls=cls, solver=spec.get("solver", "other"), obj=evaluable)
+                scope = {}
+                exec(fs["source"], scope)  # noqa: S102 - the model's rendering of scico's own generated function
+                ref, real = scope["itstat_func"].__code__, s.itstat_insert_func.__code__
+                got = [list(real.co_names), real.co_code.hex(), [repr(c) for c in real.co_consts]]
+                exp = [list(ref.co_names), ref.co_code.hex(), [repr(c) for c in ref.co_consts]]
+                ctx.count("fields:statistics function compared")
+                if got != exp:
+                    ctx.disagree("driver.fields", dict(case, what="statistics function"), got[0], exp[0])
+                doc = {"admm": ["x", "*z_list", "*u_list"], "ladmm": ["x", "z", "u"], "padmm": ["x", "z", "u"], "nlpadmm": ["x", "z", "u"],
+                       "pdhg": ["x", "z"], "pgm": ["x"], "apgm": ["x", "v"]}[cls]
+                if fs["vars"] != doc:
+                    ctx.disagree("driver.fields", dict(case, what="working variables"), doc, fs["vars"])
 
 
 def check_finite(ctx, model):
@@ -516,14 +591,15 @@ def findings(ctx, model):
     """replay the witnesses of the two defects of the pinned tree (only reported while a `known:` line exists)"""
     common.setup_scico()
     wdir = common.CORPUS_DIR / PROP
-    for kid, fname in (("maxiter0-itnum", "witness_maxiter0_itnum.json"), ("nanstop-block", "witness_nanstop_block.json")):
+    for kid, fname in (("maxiter0-itnum", "witness_maxiter0_itnum.json"), ("nanstop-block", "witness_nanstop_block.json"),
+                       ("callback-maxiter-counter", "witness_callback_maxiter.json"), ("timer-str-running", "witness_timer_str.json")):
         if not ctx.is_known(kid):
             continue
         f = wdir / fname
         if not f.exists():
             raise common.Infra(f"witness {f} of known finding {kid} missing")
         case = json.loads(f.read_text())
-        r = session_oracle(case)
+        r = timer_oracle(case) if case.get("kind") == "timer" else session_oracle(case)
         ctx.known_finding(kid, r is not None, detail=(r or {}).get("fails", ""))
 
 
@@ -538,6 +614,8 @@ def search(ctx, model, why):
             kid = None
             if "counter after solve" in r.get("fails", "") and r["op"].get("maxiter", 1) <= 0:
                 kid = "maxiter0-itnum"
+            elif "counter after solve" in r.get("fails", "") and r.get("callback_assigned_maxiter"):
+                kid = "callback-maxiter-counter"
             if kid and ctx.is_known(kid):
                 ctx.known_finding(kid, True)
                 continue
@@ -547,6 +625,12 @@ def search(ctx, model, why):
         r = timer_oracle({"cfg": cfg, "calls": calls})
         ctx.count("search:timer")
         if r is not None:
+            if r.get("timer_returned") == "TypeError" and ctx.is_known("timer-str-running"):
+                ctx.known_finding("timer-str-running", True)
+                # look behind the known failure: the same history without the table queries
+                r = timer_oracle({"cfg": cfg, "calls": [c for c in calls if c["op"] != "str"]})
+                if r is None:
+                    continue
             return r
     return None
 
